@@ -353,7 +353,7 @@ func TestVerifC17SM4(t *testing.T) {
 			// FIRST USE of fresh AEADs: several goroutines make the very first calls on an AEAD that has just been derived
 			// (whatever an AEAD sets up lazily on first use is set up by all of them at once)
 			{
-				nTrials := hk.N(150, 1500)
+				nTrials := hk.N(600, 3000)
 				for trial := 0; trial < nTrials; trial++ {
 					key := rng.Bytes(16)
 					blk, err := NewCipher(key)
